@@ -28,6 +28,22 @@ def run(tier):
             k += 1
             pairs.append(PC2.pair(k, res[c["id"]], res[c["id"] + off], info={"what": "time-labels", "t0": (0, 17)[off - 1]}))
     chk.validate("Trace_Pair.tla", "Trace_Pair.cfg", pairs, "labels", own=["pair."], nontrivial=lambda p: len(p["a"]) > 40)
+    # the wrappers once more through the recording base-learner class: the learners must be created with the same arguments
+    # (budget, smoothness parameters) and be pulled / rewarded identically whatever the labels are
+    from .. import wraprec as W
+    wbase = [c for c in PC2.base_cfgs(tier, 3250000, ["GPO", "GPO", "PCT", "VPCT", "POO"], 1 if tier == "quick" else 5, seedoff=9, n_choices=(100, 128)) ]
+    for j, c in enumerate(wbase):
+        if c["algo"] == "GPO":
+            c["prm"] = dict(c["prm"], base=["T_HOO", "HCT", "VHCT"][j % 3])
+        c["pattern"] = ["g", "neg", "tied", "const"][j % 4]
+    wjobs = [dict(c, id=c["id"] + {1: 0, 0: 1, 17: 2}[t0], t0=t0, RU=4) for c in wbase for t0 in (1, 0, 17)]
+    wres = {t["id"]: t for t in S.pmap(W.run_wrap, wjobs)}
+    wpairs = []
+    for c in wbase:
+        for off in (1, 2):
+            k += 1
+            wpairs.append(PC2.pair(50000 + k, wres[c["id"]], wres[c["id"] + off], info={"what": "time-labels-wrappers", "t0": (0, 17)[off - 1]}))
+    chk.validate("Trace_Pair.tla", "Trace_Pair.cfg", wpairs, "wlabels", own=["pair."], nontrivial=lambda p: len(p["a"]) > 40)
     # recommendation queries: schedules from TLC (exhaustive for 4 rounds with up to 2 queries per gap, simulated for long runs)
     scheds = PC2.schedules(chk, "query", 4, 2)
     if tier != "quick":
